@@ -136,7 +136,8 @@ def gen_case(ctx: Ctx):
         case["scan"] = rng.choice([None, "custom", "grid"])
         case["lazy"] = rng.random() < 0.5
     if kind == "planewave-multislice":
-        case["tilt"] = rng.choice([[gen_dist(rng, "tilt"), 0.0], [0.0, gen_dist(rng, "tilt")], [gen_dist(rng, "tilt"), gen_dist(rng, "tilt")]])
+        sc = rng.choice([0.0, 1.5, -4.0, 12.0])  # the scalar component of a mixed (distribution, scalar) tilt, mostly non-zero
+        case["tilt"] = rng.choice([[gen_dist(rng, "tilt"), sc], [sc, gen_dist(rng, "tilt")], [gen_dist(rng, "tilt"), gen_dist(rng, "tilt")]])
         case["lazy"] = rng.random() < 0.5
     return case
 
@@ -301,6 +302,10 @@ class C03(Property):
             w = build().compute()
         except Exception as e:  # noqa
             ctx.violation(f"{kind}:ensemble-build-raises", c, {"error": f"{type(e).__name__}: {e}"[:200]}); return
+        if tilt:  # a scalar tilt component next to a distribution must survive as the base tilt of every member
+            for j, xy in enumerate("xy"):
+                if not isinstance(tilt[j], dict) and abs(float(w.metadata.get(f"base_tilt_{xy}", 0.0)) - float(tilt[j])) > 1e-9:
+                    ctx.violation(f"{kind}:scalar-tilt-component-lost", c, {"component": xy, "given": tilt[j], "metadata": float(w.metadata.get(f"base_tilt_{xy}", 0.0))}); return
         specs = [tilt[j] if n == "tilt" else params[n] for n, j in names]
         kept = [(n, s) for n, s in zip(names, specs) if not s.get("mean")]
         shape = tuple(len(s["values"]) for _, s in kept)
